@@ -168,7 +168,8 @@ func featWorld(set []int) (d *Dir, ent *refcfg.CertCfg, pre map[string][]byte, w
 	if h("extension-list") {
 		t := true
 		ent.Exts = append(ent.Exts,
-			refcfg.Ext{Kind: refcfg.KSAN, SAN: &[]refcfg.GeneralName{{Type: "dns", Name: "feature.example"}, {Type: "ip", Name: "10.1.2.3"}}},
+			refcfg.Ext{Kind: refcfg.KSAN, SAN: &[]refcfg.GeneralName{{Type: "dns", Name: "Feature.Example.ORG"}, {Type: "mail", Name: "Some.One@Example.ORG"}, {Type: "ip", Name: "10.1.2.3"}}},
+			refcfg.Ext{Kind: refcfg.KAIA, AIA: refcfg.Strs("HTTP://OCSP.Example.ORG/Status#", "http://o.example")},
 			refcfg.Ext{Kind: refcfg.KBC, Critical: &t, BC: &refcfg.BasicConstraints{Ca: &t, PathLen: refcfg.I(1)}},
 			refcfg.Ext{Kind: refcfg.KCustom, CustomOID: "1.2.3.4.5.6", Raw: refcfg.Bin([]byte{0x04, 0x02, 0xca, 0xfe})},
 			refcfg.Ext{Kind: refcfg.KEKU, EKU: refcfg.Strs("clientAuth", "1.2.3.4.5")})
@@ -268,6 +269,11 @@ func (w *featWrap) UnmarshalJSON(b []byte) error {
 		w.inner = fc
 		return json.Unmarshal(b, fc)
 	}
+	if _, ok := probe["feat_edit"]; ok {
+		fc := &featEditCase{}
+		w.inner = fc
+		return json.Unmarshal(b, fc)
+	}
 	w.inner = w.newCase()
 	return json.Unmarshal(b, w.inner)
 }
@@ -296,8 +302,182 @@ func withFeatures(id string) {
 	ck.Rule += " PLUS the feature-interaction sweep shared by C01-C07, C16 and C19: one entity with every compatible subset of size <=2 (thorough <=3) of " + fmt.Sprint(len(featNames)) + " features (" + strings.Join(featNames, ", ") + "), generated with the default flags and regenerated with generate-all, the certificate compared with the reference translation after each run; this check reports the differences its property owns"
 }
 
+// ---------------------------------------------------------------- feature edits (C12)
+
+// featEditCase: a directory generated with feature set {F} (F = -1: plain) is edited so that the
+// entity also has feature G, run, run again, edited back, run. Shared machinery of C12: after each
+// default-flag run the certificate reflects the configuration of that moment, and a run without an
+// edit in between changes nothing.
+type featEditCase struct {
+	FeatEdit [2]int `json:"feat_edit"` // F, G
+}
+
+// features that are a matter of the configuration text alone (can be edited in and out)
+var featEditable = []string{"profile", "version-0", "manipulated-signature+key-algorithm", "serial+unique-ids", "absolute-validity-2049/2050",
+	"relative-validity", "extension-list", "signature-algorithm", "non-ascii-subject", "admission",
+	"manipulated-inner-signature-oid", "manipulated-outer-signature-oid", "manipulated-key-bits"}
+
+func featIndex(name string) int {
+	for i, n := range featNames {
+		if n == name {
+			return i
+		}
+	}
+	return -1
+}
+
+func featEditEnumerate(tier string, yield func(any)) {
+	for f := -1; f < len(featNames); f++ {
+		for _, gn := range featEditable {
+			g := featIndex(gn)
+			if g == f {
+				continue
+			}
+			set := []int{g}
+			if f >= 0 {
+				set = []int{f, g}
+				if f > g {
+					set = []int{g, f}
+				}
+			}
+			if !featCompatible(set) {
+				continue
+			}
+			yield(&featEditCase{FeatEdit: [2]int{f, g}})
+		}
+	}
+}
+
+func featEditExec(x *engine.Ctx, owner string, c *featEditCase) {
+	f, g := c.FeatEdit[0], c.FeatEdit[1]
+	if g < 0 || g >= len(featNames) || f >= len(featNames) {
+		return
+	}
+	var set0 []int
+	label := "plain"
+	if f >= 0 {
+		set0 = []int{f}
+		label = featNames[f]
+	}
+	set1 := append(append([]int{}, set0...), g)
+	sort.Ints(set1)
+	label += " <-> +" + featNames[g]
+	d0, ent0, pre, wantKey, err := featWorld(set0)
+	if err != nil {
+		x.Cap("feature world: " + err.Error())
+		return
+	}
+	d1, ent1, pre1, _, err := featWorld(set1)
+	if err != nil {
+		x.Cap("feature world: " + err.Error())
+		return
+	}
+	x.Nontrivial("feature edit " + label)
+	gen := Generate(d0, func(w *simfs.World) {
+		var ps []string
+		for p := range pre {
+			ps = append(ps, p)
+		}
+		sort.Strings(ps)
+		for _, p := range ps {
+			w.Put(p, pre[p])
+		}
+	}, drive.Default)
+	x.Transition(1)
+	if !gen.Res.OK() {
+		x.Violation(owner+"/feature-edit/first-run-failed", fmt.Sprintf("[%s] %v %s", label, gen.Res.Err(), gen.Res.Panic))
+		return
+	}
+	w := gen.W
+	// write the configuration files of dir into w where their text differs; artifacts stay
+	apply := func(dir *Dir, pre map[string][]byte) {
+		tmp := simfs.New(simfs.TickPerWrite)
+		dir.Render(tmp)
+		for _, p := range tmp.Paths() {
+			if cur, ok := w.Files[p]; !ok || string(cur.Data) != string(tmp.Files[p].Data) {
+				w.Put(p, tmp.Files[p].Data)
+			}
+		}
+		for p, b := range pre {
+			if _, ok := w.Files[p]; !ok {
+				w.Put(p, b)
+			}
+		}
+	}
+	step := func(phase string, dir *Dir, ent *refcfg.CertCfg, mustRegenerate bool) bool {
+		g2 := &GenResult{W: w, Before: w.Clone(), RunStart: gen.RunStart}
+		g2.Res = drive.Run(w, drive.Default, nil)
+		g2.RunEnd = gen.RunEnd + 5
+		x.Transition(1)
+		if g2.Res.Panic != "" {
+			x.Violation(owner+"/feature-edit/panic/"+g2.Res.PanicSite, fmt.Sprintf("[%s] %s: %s", label, phase, g2.Res.Panic))
+			return false
+		}
+		if !g2.Res.OK() {
+			x.Violation(owner+"/feature-edit/run-failed", fmt.Sprintf("[%s] %s: %v", label, phase, g2.Res.Err()))
+			return false
+		}
+		if mustRegenerate && !g2.Res.Planned(AliasOf(ent)) {
+			x.Violation(owner+"/feature-edit/edit-not-seen", fmt.Sprintf("[%s] %s: the configuration changed but the entity is not regenerated (plan %v)", label, phase, g2.Res.PlanAliases()))
+			return false
+		}
+		if !mustRegenerate {
+			if len(g2.Res.Plan) != 0 || len(simfs.Diff(g2.Before, w)) != 0 {
+				x.Violation(owner+"/feature-edit/run-without-edit-not-a-noop", fmt.Sprintf("[%s] %s: plan %v, changed %v", label, phase, g2.Res.PlanAliases(), simfs.Diff(g2.Before, w)))
+				return false
+			}
+			return true
+		}
+		diffs, _, err := g2.CompareEntity(dir, AliasOf(ent), wantKey)
+		if err != nil {
+			x.Violation(owner+"/feature-edit/no-certificate", fmt.Sprintf("[%s] %s: %v", label, phase, err))
+			return false
+		}
+		for _, df := range diffs {
+			x.Violation(owner+"/feature-edit/does-not-reflect-config/"+strings.TrimPrefix(df.Class, df.Owner+"/"), fmt.Sprintf("[%s] %s: %s", label, phase, df.Detail))
+		}
+		return true
+	}
+	apply(d1, pre1)
+	if !step("after editing the feature in", d1, ent1, true) {
+		return
+	}
+	if !step("second run, nothing edited", d1, ent1, false) {
+		return
+	}
+	apply(d0, nil)
+	if !step("after editing the feature out again", d0, ent0, true) {
+		return
+	}
+	step("final run, nothing edited", d0, ent0, false)
+	x.Outcome("feature edit compared")
+}
+
+// withFeatureEdits adds the feature-edit histories to a registered check.
+func withFeatureEdits(id string) {
+	ck := registry[id]
+	enum, exec, newCase := ck.Enumerate, ck.Exec, ck.NewCase
+	ck.Enumerate = func(tier string, yield func(any)) {
+		enum(tier, yield)
+		featEditEnumerate(tier, yield)
+	}
+	ck.NewCase = func() any { return &featWrap{newCase: newCase} }
+	ck.Exec = func(x *engine.Ctx, c any) {
+		if w, ok := c.(*featWrap); ok {
+			c = w.inner
+		}
+		if fc, ok := c.(*featEditCase); ok {
+			featEditExec(x, id, fc)
+			return
+		}
+		exec(x, c)
+	}
+	ck.Rule += " PLUS feature-edit histories: a directory generated with one of " + fmt.Sprint(len(featNames)+1) + " feature sets (none or one of the sweep's features) is edited so that the entity also has one of " + fmt.Sprint(len(featEditable)) + " configuration-level features, run, run again, edited back, run, run again - after each editing run the certificate equals the reference translation of the files of that moment, and each run without an edit is a no-op"
+}
+
 func init() {
 	for _, id := range []string{"C01", "C02", "C03", "C04", "C05", "C06", "C07", "C16", "C19"} {
 		withFeatures(id)
 	}
+	withFeatureEdits("C12")
 }
